@@ -2,66 +2,91 @@ import TlxVerif.Model.C12Conc
 /-!
 Invariant of the concurrent CountingPtr model (all interleavings): helper lemmas.
 
-A thread's *contribution* is the number of references it is accountable for: its local handles
-(already updated to the state after the operation in progress) plus the `dec`s it still has to
-perform minus the `inc`s it still has to perform.
+A thread's *contribution* is the number of references to the shared object it is accountable
+for: its local handles that point to it (already updated to the state after the operation in
+progress) plus the `dec`s it still has to perform minus the `inc`s it still has to perform.  An
+in-flight `unify()` keeps the contribution: before the `unique()` load the handle counts; when
+the load sees a shared object the handle is handed over to the private copy and the pending
+release (`dec`) takes its place.
 -/
+set_option linter.unusedSimpArgs false
 namespace TlxVerif.C12
 
-def own (l0 l1 : Bool) : Int := (if l0 then 1 else 0) + (if l1 then 1 else 0)
+def b2i (b : Bool) : Int := if b then 1 else 0
+
+def own (f : Fl) : Int := b2i f.l0 + b2i f.l1 + b2i f.d
 
 def pendBal (p : List Micro) : Int := (p.count .dec : Int) - (p.count .inc : Int)
 
-def contrib (t : Thr) : Int := own t.l0 t.l1 + pendBal t.pend
+def contrib (t : Thr) : Int := own t.fl + pendBal t.pend
 
-def touches (p : List Micro) : Bool := p.any fun m => m == .inc || m == .dec || m == .load
+/-- does the list contain a step that reads or writes the shared object (other than its own
+    destruction)? -/
+def touches (p : List Micro) : Bool :=
+  p.any fun m => match m with
+    | .inc | .dec | .load | .uload _ | .copy => true
+    | _ => false
 
 def dels (p : List Micro) : Nat := p.count .del
 
 /-- the shapes a thread's list of outstanding visible steps can have -/
 def shapes : List (List Micro) :=
   [[], [.inc], [.inc, .load, .dec], [.inc, .dec], [.load, .dec], [.dec], [.load],
-   [.del, .dload], [.dload], [.del]]
+   [.del, .dload], [.dload], [.del],
+   [.uload .l0], [.uload .l1], [.uload .d], [.copy, .load, .dec], [.copy, .dec]]
+
+/-- a pending `unique()` test of `h.unify()`: the handle `h` still points to the shared object -/
+def uloadOk (f : Fl) (p : List Micro) : Bool :=
+  match p with
+  | [.uload h] => f.get h
+  | _ => true
 
 /-- local well-formedness of a thread -/
 def tOk (t : Thr) : Prop :=
-  t.pend ∈ shapes ∧ 0 ≤ contrib t ∧ (touches t.pend = true → 1 ≤ contrib t)
+  t.pend ∈ shapes ∧ 0 ≤ contrib t ∧ (touches t.pend = true → 1 ≤ contrib t) ∧ uloadOk t.fl t.pend = true
 
 /-- starting an operation keeps the contribution, yields a legal shape without destructor steps -/
-theorem expand_ok (asserts l0 l1 : Bool) (c : Char) :
-    let r := expand asserts l0 l1 c
-    r.1 ∈ shapes ∧ own r.2.1 r.2.2 + pendBal r.1 = own l0 l1 ∧
-      (touches r.1 = true → 1 ≤ own l0 l1) ∧ dels r.1 = 0 := by
+theorem expand_ok (asserts : Bool) (f : Fl) (c : Char) :
+    let r := expand asserts f c
+    r.1 ∈ shapes ∧ own r.2 + pendBal r.1 = own f ∧
+      (touches r.1 = true → 1 ≤ own f) ∧ dels r.1 = 0 ∧ uloadOk r.2 r.1 = true := by
+  obtain ⟨a, b, d⟩ := f
   unfold expand
-  split <;> cases l0 <;> cases l1 <;> cases asserts <;> decide
+  split <;> cases a <;> cases b <;> cases d <;> cases asserts <;> decide
 
-theorem settleAux_ok (asserts : Bool) (l0 l1 : Bool) (prog : List Char) :
-    let t := settleAux asserts l0 l1 prog
-    tOk t ∧ contrib t = own l0 l1 ∧ dels t.pend = 0 := by
-  induction prog generalizing l0 l1 with
-  | nil => cases l0 <;> cases l1 <;> simp [settleAux, tOk, contrib, shapes, pendBal, touches, dels, own]
+theorem own_nonneg (f : Fl) : 0 ≤ own f := by
+  obtain ⟨a, b, d⟩ := f
+  cases a <;> cases b <;> cases d <;> decide
+
+theorem settleAux_ok (asserts : Bool) (f : Fl) (prog : List Char) :
+    let t := settleAux asserts f prog
+    tOk t ∧ contrib t = own f ∧ dels t.pend = 0 := by
+  induction prog generalizing f with
+  | nil =>
+    have := own_nonneg f
+    simp [settleAux, tOk, contrib, shapes, pendBal, touches, dels, uloadOk, this]
   | cons c rest ih =>
-    have h := expand_ok asserts l0 l1 c
+    have h := expand_ok asserts f c
     simp only [settleAux]
-    generalize expand asserts l0 l1 c = r at h
-    obtain ⟨ms, l0', l1'⟩ := r
+    generalize expand asserts f c = r at h
+    obtain ⟨ms, f'⟩ := r
     simp only at h
-    obtain ⟨h1, h2, h3, h4⟩ := h
+    obtain ⟨h1, h2, h3, h4, h5⟩ := h
     cases ms with
     | nil =>
       simp only
-      have := ih l0' l1'
+      have := ih f'
       simp only [pendBal, List.count_nil] at h2
-      have e : own l0' l1' = own l0 l1 := by simpa using h2
+      have e : own f' = own f := by simpa using h2
       rw [e] at this
       exact this
     | cons m ms' =>
       simp only
-      refine ⟨⟨h1, ?_, ?_⟩, ?_, h4⟩
-      · simp only [contrib]; rw [h2]; unfold own; cases l0 <;> cases l1 <;> decide
+      have := own_nonneg f
+      refine ⟨⟨h1, ?_, ?_, h5⟩, ?_, h4⟩
+      · simp only [contrib]; rw [h2]; exact this
       · intro ht; simp only [contrib]; rw [h2]; exact h3 ht
       · simp only [contrib]; exact h2
-
 
 /-! ### sums over the thread list -/
 
@@ -119,14 +144,44 @@ theorem total_zero (f : Thr → Int) (l : List Thr) (h : ∀ t ∈ l, f t = 0) :
     rw [total_cons, h a (by simp), ih (fun t ht => h t (by simp [ht]))]; rfl
 
 
+
 /-! ### the global invariant -/
 
 def delsI (t : Thr) : Int := (dels t.pend : Int)
 
-/-- the handles of a thread are destroyed at the end of its program (`r` then `q`) -/
-def progOk (t : Thr) : Prop :=
-  (∃ pre, t.prog = pre ++ ['r', 'q']) ∨ (t.prog = ['q'] ∧ t.l1 = false) ∨
-  (t.prog = [] ∧ t.l0 = false ∧ t.l1 = false)
+/-- the handles of a thread are destroyed at the end of its program (`Q`, `r`, `q`) -/
+def progOkF (f : Fl) (prog : List Char) : Prop :=
+  (∃ pre, prog = pre ++ ['Q', 'r', 'q']) ∨ (prog = ['r', 'q'] ∧ f.d = false) ∨
+  (prog = ['q'] ∧ f.d = false ∧ f.l1 = false) ∨
+  (prog = [] ∧ f.d = false ∧ f.l1 = false ∧ f.l0 = false)
+
+def progOk (t : Thr) : Prop := progOkF t.fl t.prog
+
+/-- `f'` has no more handles to the shared object than `f` -/
+def FlLe (f' f : Fl) : Prop := (f'.l0 = true → f.l0 = true) ∧ (f'.l1 = true → f.l1 = true) ∧ (f'.d = true → f.d = true)
+
+theorem FlLe.refl (f : Fl) : FlLe f f := ⟨id, id, id⟩
+
+theorem progOkF_mono {f f' : Fl} {prog : List Char} (hle : FlLe f' f) (h : progOkF f prog) :
+    progOkF f' prog := by
+  obtain ⟨a, b, d⟩ := f
+  obtain ⟨a', b', d'⟩ := f'
+  obtain ⟨h0, h1, h2⟩ := hle
+  simp only at h0 h1 h2
+  rcases h with h | ⟨hp, hd⟩ | ⟨hp, hd, hl1⟩ | ⟨hp, hd, hl1, hl0⟩
+  · exact .inl h
+  · simp only at hd
+    refine .inr (.inl ⟨hp, ?_⟩)
+    cases d' <;> simp_all
+  · simp only at hd hl1
+    refine .inr (.inr (.inl ⟨hp, ?_, ?_⟩))
+    · cases d' <;> simp_all
+    · cases b' <;> simp_all
+  · simp only at hd hl1 hl0
+    refine .inr (.inr (.inr ⟨hp, ?_, ?_, ?_⟩))
+    · cases d' <;> simp_all
+    · cases b' <;> simp_all
+    · cases a' <;> simp_all
 
 structure CInv (s : CSt) : Prop where
   /-- no use-after-free, no underflow, no double destruction has happened -/
@@ -140,11 +195,6 @@ structure CInv (s : CSt) : Prop where
   /-- the destructor has run or is about to run exactly when the count is zero — and only once -/
   once : (s.destroyed : Int) + total delsI s.thr = if s.count = 0 then 1 else 0
 
-theorem tail_shape {m : Micro} {rest : List Micro} (h : (m :: rest) ∈ shapes) : rest ∈ shapes := by
-  simp [shapes] at h
-  rcases h with ⟨_, h⟩ | ⟨_, h⟩ | ⟨_, h⟩ | ⟨_, h⟩ | ⟨_, h⟩ | ⟨_, h⟩ | ⟨_, h⟩ | ⟨_, h⟩ | ⟨_, h⟩ <;>
-    subst h <;> simp [shapes]
-
 theorem settle_ok (asserts : Bool) (t : Thr) (h : t.pend ≠ [] → tOk t) :
     let t' := settle asserts t
     tOk t' ∧ contrib t' = contrib t ∧ delsI t' = delsI t := by
@@ -152,7 +202,7 @@ theorem settle_ok (asserts : Bool) (t : Thr) (h : t.pend ≠ [] → tOk t) :
   cases hp : t.pend with
   | nil =>
     simp only [List.isEmpty_nil, if_true]
-    obtain ⟨h1, h2, h3⟩ := settleAux_ok asserts t.l0 t.l1 t.prog
+    obtain ⟨h1, h2, h3⟩ := settleAux_ok asserts t.fl t.prog
     refine ⟨h1, ?_, ?_⟩
     · rw [h2]; simp [contrib, hp, pendBal]
     · simp only [delsI, h3, hp]; simp [dels]
@@ -160,87 +210,93 @@ theorem settle_ok (asserts : Bool) (t : Thr) (h : t.pend ≠ [] → tOk t) :
     simp only [List.isEmpty_cons]
     exact ⟨h (by simp [hp]), rfl, rfl⟩
 
-theorem settleAux_progOk (asserts : Bool) (l0 l1 : Bool) (prog : List Char)
-    (h : progOk { l0 := l0, l1 := l1, pend := [], prog := prog }) :
-    progOk (settleAux asserts l0 l1 prog) := by
-  induction prog generalizing l0 l1 with
-  | nil => simpa [settleAux] using h
+/-- the local state right after starting the next operation still promises the final destructors -/
+theorem expand_progOk (asserts : Bool) (f : Fl) (c : Char) (rest : List Char)
+    (h : progOkF f (c :: rest)) : progOkF (expand asserts f c).2 rest := by
+  rcases h with ⟨pre, hpre⟩ | ⟨hp, hd⟩ | ⟨hp, hd, hl1⟩ | ⟨hp, _⟩
+  · cases pre with
+    | nil =>
+      simp at hpre
+      obtain ⟨hc, hr⟩ := hpre
+      subst hc; subst hr
+      exact .inr (.inl ⟨rfl, by simp [expand]⟩)
+    | cons a pre' =>
+      simp at hpre
+      exact .inl ⟨pre', hpre.2⟩
+  · simp at hp
+    obtain ⟨hc, hr⟩ := hp
+    subst hc; subst hr
+    exact .inr (.inr (.inl ⟨rfl, by simpa [expand] using hd, by simp [expand]⟩))
+  · simp at hp
+    obtain ⟨hc, hr⟩ := hp
+    subst hc; subst hr
+    exact .inr (.inr (.inr ⟨rfl, by simpa [expand] using hd, by simpa [expand] using hl1, by simp [expand]⟩))
+  · simp at hp
+
+theorem settleAux_progOk (asserts : Bool) (f : Fl) (prog : List Char) (h : progOkF f prog) :
+    progOk (settleAux asserts f prog) := by
+  induction prog generalizing f with
+  | nil => simpa [settleAux, progOk] using h
   | cons c rest ih =>
     simp only [settleAux]
-    -- the state right after starting operation `c`
-    have key : progOk { l0 := (expand asserts l0 l1 c).2.1, l1 := (expand asserts l0 l1 c).2.2,
-                        pend := [], prog := rest } := by
-      rcases h with ⟨pre, hpre⟩ | ⟨hq, hl1⟩ | ⟨hn, _⟩
-      · cases pre with
-        | nil =>
-          simp at hpre
-          obtain ⟨hc, hr⟩ := hpre
-          subst hc; subst hr
-          right; left
-          exact ⟨rfl, by simp [expand]⟩
-        | cons a pre' =>
-          simp at hpre
-          exact .inl ⟨pre', hpre.2⟩
-      · simp at hq
-        obtain ⟨hc, hr⟩ := hq
-        subst hc; subst hr
-        right; right
-        simp at hl1
-        exact ⟨rfl, by simp [expand], by simp [expand, hl1]⟩
-      · simp at hn
-    generalize expand asserts l0 l1 c = r at key
-    obtain ⟨ms, l0', l1'⟩ := r
+    have key := expand_progOk asserts f c rest h
+    generalize expand asserts f c = r at key
+    obtain ⟨ms, f'⟩ := r
     cases ms with
-    | nil => exact ih l0' l1' key
-    | cons m ms' =>
-      rcases key with ⟨pre, hpre⟩ | ⟨hq, hl1⟩ | ⟨hn, h0, h1⟩
-      · exact .inl ⟨pre, hpre⟩
-      · exact .inr (.inl ⟨hq, hl1⟩)
-      · exact .inr (.inr ⟨hn, h0, h1⟩)
+    | nil => exact ih f' key
+    | cons m ms' => exact key
 
 theorem settle_progOk (asserts : Bool) (t : Thr) (h : progOk t) : progOk (settle asserts t) := by
   unfold settle
   split
-  · exact settleAux_progOk asserts t.l0 t.l1 t.prog (by
-      rcases h with ⟨pre, hpre⟩ | ⟨hq, hl1⟩ | ⟨hn, h0, h1⟩
-      · exact .inl ⟨pre, hpre⟩
-      · exact .inr (.inl ⟨hq, hl1⟩)
-      · exact .inr (.inr ⟨hn, h0, h1⟩))
+  · exact settleAux_progOk asserts t.fl t.prog h
   · exact h
-
 
 theorem delsI_nonneg (t : Thr) : 0 ≤ delsI t := by simp [delsI]
 
-/-- effect of one visible step on the shared state, for a thread satisfying the invariant -/
+theorem own_clear (f : Fl) (h : Hd) (hh : f.get h = true) : own (f.clear h) = own f - 1 := by
+  obtain ⟨a, b, d⟩ := f
+  cases h <;> cases a <;> cases b <;> cases d <;> first | decide | (simp [Fl.get] at hh)
+
+theorem flLe_clear (f : Fl) (h : Hd) : FlLe (f.clear h) f := by
+  obtain ⟨a, b, d⟩ := f
+  cases h <;> simp [FlLe, Fl.clear]
+
+
+/-- effect of one visible step on the shared state and on the stepping thread, for a thread
+    satisfying the invariant -/
 theorem micro_ok (asserts : Bool) {s : CSt} (hI : CInv s) {t : Thr} (ht : t ∈ s.thr)
     {m : Micro} {rest : List Micro} (hp : t.pend = m :: rest) :
-    let r := microStep asserts s m rest
-    let t1 : Thr := { t with pend := r.2.1 }
-    r.1.err = none ∧ r.1.thr = s.thr ∧ (r.2.1 ≠ [] → tOk t1) ∧
+    let r := microStep asserts s t m rest
+    let t1 : Thr := r.2.1
+    r.1.err = none ∧ r.1.thr = s.thr ∧ (t1.pend ≠ [] → tOk t1) ∧ t1.prog = t.prog ∧ FlLe t1.fl t.fl ∧
     (r.1.count : Int) = s.count + contrib t1 - contrib t ∧
     (r.1.destroyed : Int) + delsI t1 + (total delsI s.thr - delsI t) = if r.1.count = 0 then 1 else 0 := by
-  obtain ⟨hsh, hc0, hc1⟩ := hI.tok t ht
+  obtain ⟨hsh, hc0, hc1, hul⟩ := hI.tok t ht
   have hle : contrib t ≤ s.count := by
     rw [hI.cnt]; exact le_total contrib s.thr (fun t ht => (hI.tok t ht).2.1) t ht
   have hdle : delsI t ≤ total delsI s.thr := le_total delsI s.thr (fun t _ => delsI_nonneg t) t ht
   have hd0 := delsI_nonneg t
   have honce := hI.once
   have herr := hI.noerr
-  rw [hp] at hsh
+  have hfl := FlLe.refl t.fl
+  rw [hp] at hsh hul
   simp only [contrib, hp] at hc0 hc1 hle
   simp only [delsI, hp] at hdle hd0
   -- enumerate the shapes
   simp [shapes] at hsh
-  rcases hsh with ⟨hm, hr⟩ | ⟨hm, hr⟩ | ⟨hm, hr⟩ | ⟨hm, hr⟩ | ⟨hm, hr⟩ | ⟨hm, hr⟩ | ⟨hm, hr⟩ | ⟨hm, hr⟩ | ⟨hm, hr⟩ <;>
+  rcases hsh with ⟨hm, hr⟩ | ⟨hm, hr⟩ | ⟨hm, hr⟩ | ⟨hm, hr⟩ | ⟨hm, hr⟩ | ⟨hm, hr⟩ | ⟨hm, hr⟩ | ⟨hm, hr⟩ |
+      ⟨hm, hr⟩ | ⟨hm, hr⟩ | ⟨hm, hr⟩ | ⟨hm, hr⟩ | ⟨hm, hr⟩ | ⟨hm, hr⟩ <;>
     subst hm <;> subst hr
   all_goals simp [touches, pendBal, dels] at hc0 hc1 hle hdle hd0
-  -- shapes whose head touches the object: the count is positive, so nothing has been destroyed
+  -- [inc] [inc,load,dec] [inc,dec] [load,dec] [dec] [load]: the count is positive, nothing destroyed
   iterate 6
     · have hcz : ¬ s.count = 0 := by omega
       simp only [hcz, if_false] at honce
       have hdz : s.destroyed = 0 := by omega
       by_cases h1 : s.count - 1 = 0 <;> cases asserts <;>
-        simp [microStep, uaf, hdz, herr, hcz, h1, tOk, contrib, pendBal, delsI, dels, touches, shapes, hp] <;>
+        simp [microStep, uaf, hdz, herr, hcz, h1, tOk, contrib, pendBal, delsI, dels, touches, shapes, hp,
+          uloadOk, hfl] <;>
         omega
   -- [del, dload]
   · have hdz : s.destroyed = 0 := by split at honce <;> omega
@@ -249,11 +305,11 @@ theorem micro_ok (asserts : Bool) {s : CSt} (hI : CInv s) {t : Thr} (ht : t ∈ 
       · exact h
       · have : ¬ s.count = 0 := by omega
         simp only [this, if_false] at honce; omega
-    simp [microStep, hdz, herr, hcz, tOk, contrib, pendBal, delsI, dels, touches, shapes, hp]
+    simp [microStep, hdz, herr, hcz, tOk, contrib, pendBal, delsI, dels, touches, shapes, hp, uloadOk, hfl]
     simp [hcz] at honce
     omega
   -- [dload]
-  · simp [microStep, herr, tOk, contrib, pendBal, delsI, dels, touches, shapes, hp]
+  · simp [microStep, herr, tOk, contrib, pendBal, delsI, dels, touches, shapes, hp, uloadOk, hfl]
     exact honce
   -- [del]
   · have hdz : s.destroyed = 0 := by split at honce <;> omega
@@ -262,28 +318,47 @@ theorem micro_ok (asserts : Bool) {s : CSt} (hI : CInv s) {t : Thr} (ht : t ∈ 
       · exact h
       · have : ¬ s.count = 0 := by omega
         simp only [this, if_false] at honce; omega
-    simp [microStep, hdz, herr, hcz, tOk, contrib, pendBal, delsI, dels, touches, shapes, hp]
+    simp [microStep, hdz, herr, hcz, tOk, contrib, pendBal, delsI, dels, touches, shapes, hp, uloadOk, hfl]
     simp [hcz] at honce
     omega
+  -- [uload h] for the three handles: the handle is handed over to the private copy
+  iterate 3
+    · have hcz : ¬ s.count = 0 := by omega
+      simp only [hcz, if_false] at honce
+      have hdz : s.destroyed = 0 := by omega
+      simp only [uloadOk] at hul
+      have hcl := own_clear t.fl _ hul
+      have hfc := flLe_clear t.fl
+      by_cases h1 : s.count = 1 <;> cases asserts <;>
+        simp [microStep, uaf, hdz, herr, hcz, h1, tOk, contrib, pendBal, delsI, dels, touches, shapes, hp,
+          uloadOk, hfl, hcl, hfc, decSteps] <;>
+        omega
+  -- [copy, load, dec] [copy, dec]
+  iterate 2
+    · have hcz : ¬ s.count = 0 := by omega
+      simp only [hcz, if_false] at honce
+      have hdz : s.destroyed = 0 := by omega
+      simp [microStep, uaf, hdz, herr, hcz, tOk, contrib, pendBal, delsI, dels, touches, shapes, hp,
+          uloadOk, hfl] <;>
+        omega
 
-
-theorem settleAux_settled (asserts : Bool) (l0 l1 : Bool) (prog : List Char) :
-    (settleAux asserts l0 l1 prog).pend = [] → (settleAux asserts l0 l1 prog).prog = [] := by
-  induction prog generalizing l0 l1 with
+theorem settleAux_settled (asserts : Bool) (f : Fl) (prog : List Char) :
+    (settleAux asserts f prog).pend = [] → (settleAux asserts f prog).prog = [] := by
+  induction prog generalizing f with
   | nil => simp [settleAux]
   | cons c rest ih =>
     simp only [settleAux]
-    generalize expand asserts l0 l1 c = r
-    obtain ⟨ms, l0', l1'⟩ := r
+    generalize expand asserts f c = r
+    obtain ⟨ms, f'⟩ := r
     cases ms with
-    | nil => exact ih l0' l1'
+    | nil => exact ih f'
     | cons m ms' => simp
 
 theorem settle_settled (asserts : Bool) (t : Thr) :
     (settle asserts t).pend = [] → (settle asserts t).prog = [] := by
   unfold settle
   split
-  · exact settleAux_settled asserts t.l0 t.l1 t.prog
+  · exact settleAux_settled asserts t.fl t.prog
   · next h => intro h'; simp [h'] at h
 
 /-- one visible step of any thread preserves the invariant -/
@@ -304,20 +379,23 @@ theorem cstep_inv (asserts : Bool) {s s' : CSt} {i : Nat} {ev : String} (hI : CI
         have := List.getElem?_eq_getElem hi
         rw [this] at hti; injection hti
       have ht : t ∈ s.thr := hget ▸ List.getElem_mem hi
-      obtain ⟨m1, m2, m3, m4, m5⟩ := micro_ok asserts hI ht hp
-      generalize microStep asserts s m rest = r at h m1 m2 m3 m4 m5
-      obtain ⟨s1, pend', ev'⟩ := r
-      simp only at h m1 m2 m3 m4 m5
-      obtain ⟨k1, k2, k3⟩ := settle_ok asserts { t with pend := pend' } m3
+      obtain ⟨m1, m2, m3, mp, mf, m4, m5⟩ := micro_ok asserts hI ht hp
+      generalize microStep asserts s t m rest = r at h m1 m2 m3 mp mf m4 m5
+      obtain ⟨s1, t1, ev'⟩ := r
+      simp only at h m1 m2 m3 mp mf m4 m5
+      obtain ⟨k1, k2, k3⟩ := settle_ok asserts t1 m3
       injection h with h
       injection h with h _
       subst h
-      have hmem : ∀ u ∈ (s1.thr.set i (settle asserts { t with pend := pend' })),
-          u = settle asserts { t with pend := pend' } ∨ u ∈ s.thr := by
+      have hmem : ∀ u ∈ (s1.thr.set i (settle asserts t1)), u = settle asserts t1 ∨ u ∈ s.thr := by
         intro u hu
         rcases List.mem_or_eq_of_mem_set hu with h | h
         · right; rw [← m2]; exact h
         · left; exact h
+      have hpok1 : progOk t1 := by
+        have := hI.pok t ht
+        unfold progOk at this ⊢
+        rw [mp]; exact progOkF_mono mf this
       refine ⟨m1, ?_, ?_, ?_, ?_, ?_⟩
       · show (s1.count : Int) = total contrib (s1.thr.set i _)
         rw [m2, total_set contrib s.thr i _ hi, hget, k2, m4, hI.cnt]; omega
@@ -327,7 +405,7 @@ theorem cstep_inv (asserts : Bool) {s s' : CSt} {i : Nat} {ev : String} (hI : CI
         · exact hI.tok u h
       · intro u hu
         rcases hmem u hu with h | h
-        · rw [h]; exact settle_progOk asserts _ (hI.pok t ht)
+        · rw [h]; exact settle_progOk asserts _ hpok1
         · exact hI.pok u h
       · intro u hu
         rcases hmem u hu with h | h
@@ -336,27 +414,36 @@ theorem cstep_inv (asserts : Bool) {s s' : CSt} {i : Nat} {ev : String} (hI : CI
       · show (s1.destroyed : Int) + total delsI (s1.thr.set i _) = if s1.count = 0 then 1 else 0
         rw [m2, total_set delsI s.thr i _ hi, hget, k3, ← m5]; omega
 
-/-- the initial state (every thread holds one handle, the creator dropped its own) -/
+/-- the initial state (every thread holds two handles, the creator dropped its own) -/
 theorem start_inv (asserts : Bool) (progs : List (List Char)) (hn : progs ≠ []) :
     CInv (CSt.start asserts progs) := by
   have hstart : ∀ t ∈ (progs.map (Thr.start asserts)),
-      tOk t ∧ contrib t = 1 ∧ delsI t = 0 ∧ progOk t ∧ (t.pend = [] → t.prog = []) := by
+      tOk t ∧ contrib t = 2 ∧ delsI t = 0 ∧ progOk t ∧ (t.pend = [] → t.prog = []) := by
     intro t ht
     obtain ⟨p, _, rfl⟩ := List.mem_map.mp ht
-    have h1 := settle_ok asserts { l0 := true, l1 := false, pend := [], prog := p ++ ['r', 'q'] } (by simp)
-    have h2 := settle_progOk asserts { l0 := true, l1 := false, pend := [], prog := p ++ ['r', 'q'] }
+    have h1 := settle_ok asserts { fl := ⟨true, false, true⟩, pend := [], prog := p ++ ['Q', 'r', 'q'] } (by simp)
+    have h2 := settle_progOk asserts { fl := ⟨true, false, true⟩, pend := [], prog := p ++ ['Q', 'r', 'q'] }
       (.inl ⟨p, rfl⟩)
-    have h3 := settle_settled asserts { l0 := true, l1 := false, pend := [], prog := p ++ ['r', 'q'] }
+    have h3 := settle_settled asserts { fl := ⟨true, false, true⟩, pend := [], prog := p ++ ['Q', 'r', 'q'] }
     refine ⟨h1.1, ?_, ?_, h2, h3⟩
-    · rw [Thr.start, h1.2.1]; simp [contrib, own, pendBal]
+    · rw [Thr.start, h1.2.1]; simp [contrib, own, b2i, pendBal]
     · rw [Thr.start, h1.2.2]; simp [delsI, dels]
   have hlen : progs.length ≠ 0 := by
     intro h; exact hn (List.eq_nil_of_length_eq_zero h)
   refine ⟨rfl, ?_, fun t ht => (hstart t ht).1, fun t ht => (hstart t ht).2.2.2.1,
     fun t ht => (hstart t ht).2.2.2.2, ?_⟩
-  · show ((progs.length : Nat) : Int) = total contrib (progs.map (Thr.start asserts))
-    rw [total_map_const_one contrib _ (fun t ht => (hstart t ht).2.1)]; simp
-  · show ((0 : Nat) : Int) + total delsI (progs.map (Thr.start asserts)) = if progs.length = 0 then 1 else 0
-    rw [total_zero delsI _ (fun t ht => (hstart t ht).2.2.1)]; simp [hlen]
+  · show ((2 * progs.length : Nat) : Int) = total contrib (progs.map (Thr.start asserts))
+    have : ∀ l : List Thr, (∀ t ∈ l, contrib t = 2) → total contrib l = 2 * (l.length : Int) := by
+      intro l hl
+      induction l with
+      | nil => simp [total_nil]
+      | cons a l ih =>
+        rw [total_cons, hl a (by simp), ih (fun t ht => hl t (by simp [ht]))]
+        simp; omega
+    rw [this _ (fun t ht => (hstart t ht).2.1)]; simp
+  · show ((0 : Nat) : Int) + total delsI (progs.map (Thr.start asserts)) = if 2 * progs.length = 0 then 1 else 0
+    rw [total_zero delsI _ (fun t ht => (hstart t ht).2.2.1)]
+    have : ¬ 2 * progs.length = 0 := by omega
+    simp [this]
 
 end TlxVerif.C12
